@@ -1966,6 +1966,12 @@ func (g *smGen) next() *smCmd {
 		}
 	case "expire", "hexpire", "lexpire", "sexpire", "zexpire":
 		c.A = []int{dur()}
+		if r.Intn(6) == 0 {
+			// a duration <= 0 (Redis: the key is gone at once); the instant stays after tick 0 (ZKV!PastOut)
+			if d := -r.Intn(2); c.T+d >= 1 {
+				c.A[0] = d
+			}
+		}
 	case "hset", "hsetnx":
 		c.A = []int{sub(), vid()}
 	case "hmset":
